@@ -205,6 +205,16 @@ class Exec:
             w.pump()
             w.advance(a[0] if a else 50)
             w.pump()
+            if not a:
+                # delayed sources refilled by credit granted from on_next need more (virtual) time: run until the streams stop moving
+                def _moving():
+                    return sum(1 for e in w.rec.events if e.get('sid', 0) > 0 or e['ev'].startswith('cb_'))
+                for _ in range(40):
+                    before = _moving()
+                    w.advance(10)
+                    w.pump()
+                    if _moving() == before:
+                        break
             w.snapshot('final')
         else:
             raise ValueError('unknown step %r' % (st,))
